@@ -125,6 +125,8 @@ pub enum Stmt {
   /// `val` evaluates to 0..8: 0..4 writes that value, >=4 only when `may_delete` removes the resource.
   Write { res: Target, chk: RChk, faulty: bool, val: Expr, via: Via },
   If { cond: Expr, then: Vec<Stmt>, els: Vec<Stmt> },
+  /// The task panics when `cond` is non-zero (a deterministic, value-dependent task failure).
+  PanicIf { cond: Expr },
 }
 
 #[derive(Serialize, Deserialize, Clone, Debug, PartialEq, Eq, Hash, Default)]
@@ -143,6 +145,9 @@ pub struct Program {
   pub writers: Vec<TaskId>,
   /// Initial resource state.
   pub init: BTreeMap<ResId, Val>,
+  /// Tasks may panic for particular values; histories of such programs contain no bottom-up builds (DESIGN P10).
+  #[serde(default)]
+  pub panicky: bool,
 }
 
 impl Program {
@@ -203,6 +208,7 @@ fn pp_block(out: &mut String, block: &[Stmt], indent: usize) {
       Stmt::Read { res, chk, faulty, var } => { let _ = writeln!(out, "{}v{} = read {} [{:?}{}]", pad, var, res.pretty("r"), chk, if *faulty { "!" } else { "" }); }
       Stmt::Require { task, chk, var } => { let _ = writeln!(out, "{}v{} = require {} [{:?}]", pad, var, task.pretty("T"), chk); }
       Stmt::Write { res, chk, faulty, val, via } => { let _ = writeln!(out, "{}write {} := {} [{:?}{}] via {:?}", pad, res.pretty("r"), val.pretty(), chk, if *faulty { "!" } else { "" }, via); }
+      Stmt::PanicIf { cond } => { let _ = writeln!(out, "{}panic if {}", pad, cond.pretty()); }
       Stmt::If { cond, then, els } => {
         let _ = writeln!(out, "{}if {} {{", pad, cond.pretty());
         pp_block(out, then, indent + 2);
